@@ -53,8 +53,10 @@ type world struct {
 	nextAdr int
 }
 
-func newWorld(nv int) *world {
-	h := apph.New(apph.Options{NumValidators: nv, NumAccounts: 4})
+func newWorld(nv int) *world { return newWorldAccts(nv, 4) }
+
+func newWorldAccts(nv, nacc int) *world {
+	h := apph.New(apph.Options{NumValidators: nv, NumAccounts: nacc})
 	w := &world{h: h, byAddr: map[string]int{}, byCons: map[string]int{}, nextAdr: 200}
 	for i, v := range h.Vals {
 		op := sdk.ValAddress(v.Address)
@@ -136,9 +138,10 @@ type itemPre struct {
 	URI    string
 	N      int
 	Parity uint64
-	Proofs []proofRec
-	Asg    [][]int64 // aligned with blockPre.Active
-	Thr    *uint64   // GetZkpThreshold, nil when it panicked
+	Proofs []proofRec // the proofs in force: (validator the proof is FOR, indices)
+	Stored []proofRec // the records as stored: (id of the stored Sender address, indices)
+	Asg    [][]int64  // aligned with blockPre.Active
+	Thr    *uint64    // GetZkpThreshold, nil when it panicked
 	NInv   int
 	NCoins int
 }
@@ -258,6 +261,7 @@ func (w *world) readPre(ctx sdk.Context) blockPre {
 				panic(err)
 			}
 			it.Proofs = append(it.Proofs, proofRec{Sender: w.idOf(a), Indices: append([]int64{}, pr.Indices...)})
+			it.Stored = append(it.Stored, proofRec{Sender: w.idOf(a), Indices: append([]int64{}, pr.Indices...)})
 		}
 		invs, err := k.GetInvalidities(ctx, d.MetadataUri)
 		if err != nil {
@@ -442,9 +446,13 @@ func fcList(ids []int, fc map[int]uint64) string {
 }
 
 func (p blockPre) coq() string {
-	var items, thrs []string
+	var items, thrs, stored []string
 	for _, it := range p.Items {
-		var proofs, asg []string
+		var proofs, asg, st []string
+		for _, pr := range it.Stored {
+			st = append(st, fmt.Sprintf("{| pf_sender := %d; pf_indices := %s |}", pr.Sender, zs(pr.Indices)))
+		}
+		stored = append(stored, emit.List(st))
 		for _, pr := range it.Proofs {
 			proofs = append(proofs, fmt.Sprintf("{| pf_sender := %d; pf_indices := %s |}", pr.Sender, zs(pr.Indices)))
 		}
@@ -465,8 +473,8 @@ func (p blockPre) coq() string {
 		vi = append(vi, emit.Tuple(emit.ZI(int64(id)),
 			fmt.Sprintf("{| vi_exists := %s; vi_jailed := %s; vi_bonded := %s |}", emit.Bool(v.Exists), emit.Bool(v.Jailed), emit.Bool(v.Bonded))))
 	}
-	return fmt.Sprintf("{| bp_rf := %s; bp_sft := %s; bp_epoch := %s; bp_active := %s; bp_ids := %s; bp_items := %s; bp_thr := %s; bp_fc := %s; bp_cc := %s; bp_vinfo := %s |}",
-		emit.Z(p.RF), emit.Z(p.SFT), emit.Bool(p.Epoch), ints(p.Active), ints(p.IDs), emit.List(items), emit.List(thrs),
+	return fmt.Sprintf("{| bp_rf := %s; bp_sft := %s; bp_epoch := %s; bp_active := %s; bp_ids := %s; bp_items := %s; bp_thr := %s; bp_stored := %s; bp_fc := %s; bp_cc := %s; bp_vinfo := %s |}",
+		emit.Z(p.RF), emit.Z(p.SFT), emit.Bool(p.Epoch), ints(p.Active), ints(p.IDs), emit.List(items), emit.List(thrs), emit.List(stored),
 		fcList(p.IDs, p.FC), u64(p.CC), emit.List(vi))
 }
 
@@ -488,7 +496,11 @@ func (p blockPre) info() map[string]any {
 		for i, a := range it.Asg {
 			asg = append(asg, fmt.Sprintf("v%d:%v", p.Active[i], a))
 		}
-		m := map[string]any{"uri": it.URI, "shards": it.N, "parity": it.Parity, "proofs": proofs, "assigned": asg,
+		var stored []string
+		for _, pr := range it.Stored {
+			stored = append(stored, fmt.Sprintf("addr%d:%v", pr.Sender, pr.Indices))
+		}
+		m := map[string]any{"uri": it.URI, "shards": it.N, "parity": it.Parity, "proofs_for_validator": proofs, "stored_records": stored, "assigned": asg,
 			"invalidities": it.NInv, "collateral_coins": it.NCoins}
 		if it.Thr != nil {
 			m["zkp_threshold"] = *it.Thr
